@@ -1,0 +1,76 @@
+//go:build verif
+
+// Contracts for package decorator, read by the verification machinery in /verif (govc).
+// Comment-only: this file adds no declarations and is excluded from ordinary builds.
+
+package decorator
+
+// ---------------------------------------------------------------------------------------------
+// Position space of the restorer (restorer.go)
+//
+// r.cursor is the next position to hand out, r.lines the line table (offsets relative to r.base),
+// r.cursorAtNewLine the cursor value directly after the last line break emitted.
+
+//@ pred (r *FileRestorer) inv() bool {
+//@   r.base <= r.cursor && r.cursorAtNewLine <= r.cursor &&
+//@   len(r.lines) >= 1 && r.lines[0] == 0 &&
+//@   (forall i int :: 0 <= i && i + 1 < len(r.lines) ==> r.lines[i] < r.lines[i+1]) &&
+//@   (r.lines[len(r.lines)-1] + r.base < r.cursor || (len(r.lines) == 1 && r.cursor == r.base))
+//@ }
+
+//@ pure func nl(s dst.SpaceType) int { s == dst.NewLine ? 1 : (s == dst.EmptyLine ? 2 : 0) }
+//@ pure func isBad(n dst.Node) bool { typeof(n) == type(*dst.BadDecl) || typeof(n) == type(*dst.BadExpr) || typeof(n) == type(*dst.BadStmt) }
+//@ pure func isBreak(d string) bool { d == "\n" || hasPrefix(d, "//") }
+
+//@ func (r *FileRestorer) applySpace
+//@ requires inv: r.inv()
+//@ modifies r.cursor, r.lines, r.cursorAtNewLine, elems(int)
+//@ let s := (isBad(node) && position == "After") ? dst.EmptyLine : space
+//@ let k := max(0, nl(s) - (r.cursor == r.cursorAtNewLine ? 1 : 0))
+//@ ensures added: len(r.lines) == old(len(r.lines)) + k
+//@ ensures cursor: r.cursor == old(r.cursor) + 2*k
+//@ ensures offsets: forall j int :: 0 <= j && j < k ==> r.lines[old(len(r.lines)) + j] == old(r.cursor) - r.base + 2*j + 1
+//@ ensures prefix: forall j int :: 0 <= j && j < old(len(r.lines)) ==> r.lines[j] == old(r.lines[j])
+//@ ensures at_newline: k > 0 ==> r.cursorAtNewLine == r.cursor
+//@ ensures at_newline_kept: k == 0 ==> r.cursorAtNewLine == old(r.cursorAtNewLine)
+//@ ensures inv: r.inv()
+//@ loop 1 invariant count: 0 <= $i && ($i <= $n || $i == 0)
+//@ loop 1 invariant length: len(r.lines) == entry(len(r.lines)) + $i
+//@ loop 1 invariant cursor: r.cursor == entry(r.cursor) + 2*$i
+//@ loop 1 invariant offsets: forall j int :: 0 <= j && j < $i ==> r.lines[entry(len(r.lines)) + j] == entry(r.cursor) - r.base + 2*j + 1
+//@ loop 1 invariant prefix: forall j int :: 0 <= j && j < entry(len(r.lines)) ==> r.lines[j] == entry(r.lines[j])
+//@ loop 1 invariant at_newline: ($i > 0 ==> r.cursorAtNewLine == r.cursor) && ($i == 0 ==> r.cursorAtNewLine == entry(r.cursorAtNewLine))
+//@ loop 1 invariant inv: r.inv()
+
+//@ pred (r *FileRestorer) linesSorted() bool {
+//@   len(r.lines) >= 1 && r.lines[0] == 0 &&
+//@   (forall i int :: 0 <= i && i + 1 < len(r.lines) ==> r.lines[i] < r.lines[i+1])
+//@ }
+//@ pure func isFileStart(node ast.Node, name string) bool { typeof(node) == type(*ast.File) && name == "Start" }
+//@ pure func isComment(d string) bool { hasPrefix(d, "//") || hasPrefix(d, "/*") }
+
+//@ func (r *FileRestorer) addCommentField
+//@ modifies r.comments, elems(*ast.CommentGroup), elems(*ast.Comment), heap(ast.Field.Comment), heap(ast.ImportSpec.Comment), heap(ast.ValueSpec.Comment), heap(ast.TypeSpec.Comment), heap(ast.CommentGroup.List), heap(ast.Comment.Slash), heap(ast.Comment.Text)
+//@ ensures comments_prefix: len(r.comments) >= old(len(r.comments)) && (forall j int :: 0 <= j && j < old(len(r.comments)) ==> r.comments[j] == old(r.comments[j]))
+
+//@ func (r *FileRestorer) applyDecorations
+//@ requires inv: r.inv()
+//@ modifies r.cursor, r.lines, r.cursorAtNewLine, r.comments, elems(int), elems(*ast.CommentGroup), elems(*ast.Comment), heap(ast.Field.Comment), heap(ast.ImportSpec.Comment), heap(ast.ValueSpec.Comment), heap(ast.TypeSpec.Comment), heap(ast.CommentGroup.List), heap(ast.Comment.Slash), heap(ast.Comment.Text)
+//@ ensures inv: r.inv()
+//@ ensures cursor_monotone: r.cursor >= old(r.cursor)
+//@ ensures lines_prefix: len(r.lines) >= old(len(r.lines)) && (forall j int :: 0 <= j && j < old(len(r.lines)) ==> r.lines[j] == old(r.lines[j]))
+//@ ensures comments_prefix: len(r.comments) >= old(len(r.comments)) && (forall j int :: 0 <= j && j < old(len(r.comments)) ==> r.comments[j] == old(r.comments[j]))
+//@ ensures ends_at_newline: len(decorations) > 0 && isBreak(decorations[len(decorations)-1]) && !isFileStart(node, name) ==> r.cursorAtNewLine == r.cursor
+//@ ensures empty_is_noop: len(decorations) == 0 && !isFileStart(node, name) ==> r.cursor == old(r.cursor) && r.cursorAtNewLine == old(r.cursorAtNewLine) && len(r.lines) == old(len(r.lines)) && len(r.comments) == old(len(r.comments))
+//@ loop 1 invariant inv: r.inv()
+//@ loop 1 invariant cursor_monotone: r.cursor >= entry(r.cursor)
+//@ loop 1 invariant lines_prefix: len(r.lines) >= entry(len(r.lines)) && (forall j int :: 0 <= j && j < entry(len(r.lines)) ==> r.lines[j] == entry(r.lines[j]))
+//@ loop 1 invariant comments_prefix: len(r.comments) >= entry(len(r.comments)) && (forall j int :: 0 <= j && j < entry(len(r.comments)) ==> r.comments[j] == entry(r.comments[j]))
+//@ loop 1 invariant at_newline: $i > 0 && isBreak(decorations[$i-1]) ==> r.cursorAtNewLine == r.cursor
+//@ loop 1 invariant untouched: $i == 0 ==> r.cursor == entry(r.cursor) && r.cursorAtNewLine == entry(r.cursorAtNewLine) && len(r.lines) == entry(len(r.lines)) && len(r.comments) == entry(len(r.comments))
+//@ loop 1 invariant index: 0 <= $i && $i <= len(decorations)
+//@ loop 2 invariant sorted: r.linesSorted()
+//@ loop 2 invariant pos: 0 - 1 <= $pos && $pos < len(d)
+//@ loop 2 invariant last: r.lines[len(r.lines)-1] + r.base <= r.cursor + $pos || r.lines[len(r.lines)-1] + r.base < r.cursor || (len(r.lines) == 1 && r.cursor == r.base)
+//@ loop 2 invariant lines_prefix: len(r.lines) >= entry(len(r.lines)) && (forall j int :: 0 <= j && j < entry(len(r.lines)) ==> r.lines[j] == entry(r.lines[j]))
+//@ loop 2 invariant rest: r.base <= r.cursor && r.cursorAtNewLine <= r.cursor
